@@ -40,6 +40,7 @@ FamilySet == CASE Fam = "F1" -> {<<b>> : b \in F1Bodies}
                [] Fam = "HID2" -> Hidden2Pairs
                [] Fam = "TSH" -> TrimShare
                [] Fam = "SNG" -> SingleBodies
+               [] Fam = "TLR" -> TrimLR
                [] Fam = "LRF" -> {<<b>> : b \in LRFreeBodies}
                [] Fam = "OPT" -> {<<b>> : b \in OptBodies}
                [] Fam = "LINES" -> {<<b>> : b \in LineBodies}
